@@ -1,32 +1,41 @@
 ------------------------------ MODULE C39Trace ------------------------------
 (***************************************************************************)
 (* Leg C for C39.  One trace line per executed case:                       *)
-(*   in.lens[k]   0 = aggregate k-1 absent, n>0 = present (n units)        *)
+(*   in.lens[k]   0 = aggregate k-1 absent, n>0 = present                  *)
 (*   in.t         requested aggregate type 0..4                            *)
-(*   chunks[k]    hex of the real sub-chunk bytes given to the encoder     *)
-(*                ("" when absent), encs[k] its encoding byte              *)
-(*   got          [kind: "chunk"|"notexist"|"error"|"panic", enc, data]    *)
+(*   chunks[k]    descriptor of the real sub-chunk given to the encoder:   *)
+(*                enc, len (bytes), h (FNV-32a digest of the bytes), and   *)
+(*                the bytes themselves when short (full = TRUE)            *)
+(*   got          kind: "chunk"|"notexist"|"error"|"panic" + descriptor    *)
+(* "Unchanged" is judged on <<enc, len, h>> (and on the bytes when both    *)
+(* are recorded); a digest collision is the only way to miss a change.     *)
 (* Judged with the property-level operator Expected of AggrChunk.          *)
 (***************************************************************************)
 EXTENDS TraceLib, AggrChunk
 
-ChksOf(e) == [k \in Types |->
-                IF e.in.lens[k + 1] = 0 THEN Null
-                ELSE [enc |-> e.encs[k + 1], data |-> e.chunks[k + 1]]]
+Present(e, k) == e.in.lens[k + 1] # 0
+
+SameChunk(d, g) == /\ g.enc = d.enc /\ g.len = d.len /\ g.h = d.h
+                   /\ (d.full /\ g.full => g.bytes = d.bytes)
 
 (* Clause names are what the driver reports.  *)
 Judge(e) ==
-    LET want == Expected(ChksOf(e), e.in.t) IN
-    (IF want.kind = "notexist" /\ e.got.kind # "notexist" THEN {"absent-reported-notexist"} ELSE {})
+    LET t == e.in.t IN
+    (* "reports each absent one as not existing" *)
+    (IF ~Present(e, t) /\ e.got.kind # "notexist" THEN {"absent-reported-notexist"} ELSE {})
     \cup
-    (IF want.kind = "chunk" /\ ~(e.got.kind = "chunk" /\ e.got.enc = want.enc /\ e.got.data = want.data)
+    (* "returns each present aggregate unchanged" *)
+    (IF Present(e, t) /\ ~(e.got.kind = "chunk" /\ SameChunk(e.chunks[t + 1], e.got))
        THEN {"present-returned-unchanged"} ELSE {})
 
-(* Model conformance (never a verdict): does the algorithm-level model predict what the code  *)
-(* answered?  Printed as DRIFT tuples, counted by the driver.                                  *)
-Drift(e) == e.got.kind \in {"chunk", "notexist", "error"} /\
+(* Model conformance (never a verdict): when every sub-chunk is short enough to be recorded in    *)
+(* full, does the algorithm-level model (radix 128) predict what the code answered?               *)
+AllFull(e) == \A k \in 1..5 : e.in.lens[k] = 0 \/ e.chunks[k].full
+ChksOf(e) == [k \in Types |-> IF e.in.lens[k + 1] = 0 THEN Null
+                               ELSE [enc |-> e.chunks[k + 1].enc, data |-> e.chunks[k + 1].bytes]]
+Drift(e) == AllFull(e) /\ e.got.kind \in {"chunk", "notexist", "error"} /\
             LET p == GetAlgo(Encode(ChksOf(e)), e.in.t) IN
-            ~(p.kind = e.got.kind /\ (p.kind = "chunk" => p.enc = e.got.enc /\ p.data = e.got.data))
+            ~(p.kind = e.got.kind /\ (p.kind = "chunk" => p.enc = e.got.enc /\ p.data = e.got.bytes))
 
 VARIABLE l
 TraceInit == l = 1
